@@ -14,7 +14,59 @@
 
 //! # filter definitions for filtering dlt messages
 use crate::dlt;
-use std::{collections::HashSet, iter::FromIterator};
+#[cfg(not(feature = "verif_hooks"))]
+use std::collections::HashSet;
+use std::iter::FromIterator;
+#[cfg(feature = "verif_hooks")]
+use verif_hooks::HashSet;
+
+/// Model of the id sets for out-of-tree verification harnesses (feature `verif_hooks`): a vector-backed
+/// set with the part of the `HashSet` API the filter configuration uses.
+#[cfg(feature = "verif_hooks")]
+#[doc(hidden)]
+pub mod verif_hooks {
+    #[derive(Clone, Debug)]
+    pub struct HashSet<T>(Vec<T>);
+
+    impl<T: PartialEq> HashSet<T> {
+        pub fn new() -> Self {
+            HashSet(Vec::new())
+        }
+        pub fn contains(&self, value: &T) -> bool {
+            self.0.iter().any(|x| x == value)
+        }
+        pub fn insert(&mut self, value: T) -> bool {
+            if self.contains(&value) {
+                false
+            } else {
+                self.0.push(value);
+                true
+            }
+        }
+        pub fn len(&self) -> usize {
+            self.0.len()
+        }
+        pub fn is_empty(&self) -> bool {
+            self.0.is_empty()
+        }
+    }
+
+    impl<T: PartialEq> Default for HashSet<T> {
+        fn default() -> Self {
+            Self::new()
+        }
+    }
+
+    impl<T: PartialEq> std::iter::FromIterator<T> for HashSet<T> {
+        fn from_iter<I: IntoIterator<Item = T>>(iter: I) -> Self {
+            let mut set = HashSet::new();
+            for value in iter {
+                set.insert(value);
+            }
+            set
+        }
+    }
+}
 
 /// Describes what DLT message to filter out based on log-level and app/ecu/context-id
 ///
